@@ -75,3 +75,25 @@ Print Assumptions C13_segments_walk_correct.
 Print Assumptions C13_single_range_correct.
 Print Assumptions C13_multiple_ranges_correct.
 Print Assumptions C13_line_nums_exact.
+
+(** "The check predicate holds on the model" (built by a separate pass; proofs in Proofs/PredOnModelC13.v): the boolean
+    predicate the check evaluates on OBSERVED behaviour is true of the model's own output for all inputs, and
+    correspondence on an input implies the property on that input. *)
+From Exactly Require Import Lib.Harness Model.Interval Spec.C13 Proofs.PredOnModelC13.
+(** ** C13 part 1.  Every matcher expression, every list of probes / every text, every oracle table. *)
+Theorem C13_icase_predicate_holds_on_model : forall m probes, check_icase (icase_of_model m probes) = (true, true).
+Proof. exact check_icase_on_model. Qed.
+Print Assumptions C13_icase_predicate_holds_on_model.
+
+Theorem C13_icase_correspondence_implies_property : forall c, fst (check_icase c) = true -> snd (check_icase c) = true.
+Proof. exact corr_implies_property_icase. Qed.
+Print Assumptions C13_icase_correspondence_implies_property.
+
+Theorem C13_lcase_predicate_holds_on_model : forall m lines otab, check_lcase (lcase_of_model m lines otab) = (true, true).
+Proof. exact check_lcase_on_model. Qed.
+Print Assumptions C13_lcase_predicate_holds_on_model.
+
+Theorem C13_lcase_correspondence_implies_property : forall c, fst (check_lcase c) = true -> snd (check_lcase c) = true.
+Proof. exact corr_implies_property_lcase. Qed.
+Print Assumptions C13_lcase_correspondence_implies_property.
+
